@@ -288,3 +288,50 @@ func tableApp(r *core.Run) {
 	}
 	r.Sample(kase{"T-app", "(map 'list (lambda (x) x) '(a b))"})
 }
+
+// ---------------------------------------------------------------------------
+// T-rec: closures created inside (tail-)recursive iterations keep the
+// environment of THEIR iteration; assignment through one is seen exactly by
+// the closures sharing that binding.
+
+func tableRec(r *core.Run) {
+	caps := []string{
+		"(lambda () n)",
+		"(let ([m n]) (lambda () m))",
+		"(lambda () (set! n (+ n 10)) n)",
+		"((lambda (k) (lambda () (+ k n))) 100)",
+		"(let ([c 0]) (lambda () (set! c (+ c n)) c))",
+	}
+	bodies := []struct{ id, src string }{
+		{"if-else", "(defun build (n acc) (if (= n 0) acc (build (- n 1) (cons CAP acc))))"},
+		{"cond", "(defun build (n acc) (cond ((= n 0) acc) (else (build (- n 1) (cons CAP acc)))))"},
+		{"progn-let", "(defun build (n acc) (if (= n 0) acc (progn (debug-print n) (let ([a2 (cons CAP acc)]) (build (- n 1) a2)))))"},
+		{"mutual", "(defun build (n acc) (if (= n 0) acc (build2 (- n 1) (cons CAP acc)))) (defun build2 (n acc) (if (= n 0) acc (build (- n 1) (cons CAP acc))))"},
+		{"non-tail", "(defun build (n acc) (if (= n 0) acc (cons CAP (build (- n 1) acc))))"},
+		{"labels", "(defun build (n0 acc0) (labels ([lp (n acc) (if (= n 0) acc (lp (- n 1) (cons CAP acc)))]) (lp n0 acc0)))"},
+		{"funcall-tail", "(defun build (n acc) (if (= n 0) acc (funcall build (- n 1) (cons CAP acc))))"},
+		{"apply-tail", "(defun build (n acc) (if (= n 0) acc (apply build (list (- n 1) (cons CAP acc)))))"},
+	}
+	uses := []string{
+		"(map 'list (lambda (f) (funcall f)) L)",
+		"(list (map 'list (lambda (f) (funcall f)) L) (map 'list (lambda (f) (funcall f)) L))",
+		"(list (funcall (car L)) (map 'list (lambda (f) (funcall f)) L) (funcall (car L)))",
+	}
+	n := 0
+	for _, b := range bodies {
+		for _, c := range caps {
+			for _, u := range uses {
+				for k := 0; k <= 3; k++ {
+					def := strings.ReplaceAll(b.src, "CAP", c)
+					use := strings.ReplaceAll(u, "L", "lst")
+					src := fmt.Sprintf("%s (let ([lst (build %d '())]) (if (nil? lst) 'empty %s))", def, k, use)
+					check(r, "T-rec", src)
+					n++
+				}
+			}
+		}
+	}
+	r.Bound("T-rec_programs", n)
+	r.AddStates(int64(len(bodies) * len(caps)))
+	r.Sample(kase{"T-rec", "(defun build (n acc) (if (= n 0) acc (build (- n 1) (cons (lambda () n) acc)))) (map 'list (lambda (f) (funcall f)) (build 3 '()))"})
+}
